@@ -63,7 +63,7 @@ one_read(uint32_t addr, uint32_t n)
         unsigned char exp[128];
         for (uint32_t k = 0; k < n; k++) {
             int ai = rt_area_of(d, addr + k);
-            if (d->area[ai].readable)
+            if (d->area[ai].readable && !d->area[ai].window)
                 memcpy(exp + 2 * k, rt_model_word(&inst, addr + k), 2);
             else {
                 memset(exp + 2 * k, 0, 2);
